@@ -318,7 +318,7 @@ func init() {
 				"Timestamp and OperationID orders agree, delimiter outside the order; (b) breadth-first search over multi-replica histories with transactions, failing bodies and refused calls: " +
 				"own operations numbered 1,2,3.. without gap, lamport strictly increasing, every new operation ordered after everything applied, identifiers of every exported state pairwise " +
 				"distinct with pairwise distinct index keys; deep-prefix start states bring clocks to two digits next to a batch of 12",
-			Assume: []string{assumeE1, assumeInstr, "identifier magnitudes beyond the grid are not claimed"}}
+			Assume: []string{assumeE1, assumeE2, assumeInstr, "identifier magnitudes beyond the grid are not claimed"}}
 		o := []string{"ids", "converge"}
 		if tier == "quick" {
 			p.BudgetS = 300
@@ -333,10 +333,15 @@ func init() {
 				e1run("list-skew-n3-d4", "list", 3, 4, "mid", o, nil, "skew", 0),
 				e1run("counter-skew-n3-d4", "counter", 3, 4, "", o, nil, "skew", 0),
 				e1run("docarr-cbatch-live-n2-d3", "doc", 2, 3, "arr cbatch", o, nil, "live", 0),
+				// through the real server: entry modes, work before the first sync, a failed transaction - the server refuses
+				// a client whose numbering has a gap ("missing operations"), so nothing converges any more
+				e2run("e2-counter-2c-ahead-txfail-d5", e2p{Clients: 2, Type: "counter", Prefix: "ahead", Alpha: "one txfail", Oracles: []string{"converge", "applied", "checkpoint", "log"}}, 5, 0),
 			}
 		} else {
 			p.BudgetS = 3300
 			p.Runs = []Run{
+				e2run("e2-counter-2c-ahead-txfail-d6", e2p{Clients: 2, Type: "counter", Prefix: "ahead", Alpha: "one txfail", Oracles: []string{"converge", "applied", "checkpoint", "log"}}, 6, 300000),
+				e2run("e2-map-2c-entry-txfail-d5", e2p{Clients: 2, Type: "map", Alpha: "txfail", Oracles: []string{"converge", "applied", "checkpoint", "log"}}, 5, 300000),
 				{Name: "grid", Check: "C15", Kind: "grid", Params: map[string]int{"max_lamport": 1200, "max_delim": 120, "sub": 40}, Shards: 1},
 				e1runS("counter-n3-d5", "counter", 3, 5, "tx", o, 2, 600000),
 				e1runS("map-n2-d5", "map", 2, 5, "tx rich", o, 2, 600000),
@@ -402,6 +407,8 @@ func init() {
 				e2run("list-2c-ahead-d4", e2p{Clients: 2, Type: "list", Prefix: "ahead", Alpha: "mid", Oracles: o}, 4, 0),
 				e2run("docarr-2c-ahead-d4", e2p{Clients: 2, Type: "doc", Prefix: "ahead", Alpha: "arr", Oracles: o}, 4, 0),
 				e2run("map-3c-ahead-d4", e2p{Clients: 3, Type: "map", Prefix: "ahead", Modes: []string{"soc", "subscribe"}, Oracles: o}, 4, 0),
+				e2run("counter-2c-ahead-txfail-d5", e2p{Clients: 2, Type: "counter", Prefix: "ahead", Alpha: "one txfail", Oracles: o}, 5, 0),
+				e2run("list-2c-joined-txfail-d4", e2p{Clients: 2, Type: "list", Prefix: "joined", Alpha: "txfail", Oracles: o}, 4, 0),
 			}
 		} else {
 			p.BudgetS = 3300
@@ -734,7 +741,7 @@ func init() {
 		// re-registering (ProcessClient) while it and another client sync
 		docput := pact{Op: "dput", R: 0, K: "a", V: "o", T: "k1|"}
 		patchSync := e2sched{E2: e2p{Clients: 2, Type: "doc", Prefix: "joined", Tolerant: true}, Setup: []pact{docput, {Op: "sync", R: 0}, {Op: "dput", R: 1, K: "c", V: "p", T: "k1|"}},
-			Conc: []pact{{Op: "patch", R: 0, T: "k1", V: `{"a":{"x":1},"b":[1,2]}`}, {Op: "sync", R: 1}, {Op: "seq", R: 0, Sub: []pact{{Op: "dput", R: 0, K: "d", V: "p", T: "k1|"}, {Op: "sync", R: 0}}}},
+			Conc:  []pact{{Op: "patch", R: 0, T: "k1", V: `{"a":{"x":1},"b":[1,2]}`}, {Op: "sync", R: 1}, {Op: "seq", R: 0, Sub: []pact{{Op: "dput", R: 0, K: "d", V: "p", T: "k1|"}, {Op: "sync", R: 0}}}},
 			AtEnd: []string{"log", "converge", "snapshots", "nosnapop"}}
 		connectSync := e2sched{E2: e2p{Clients: 2, Type: "counter", Prefix: "joined", Tolerant: true}, Setup: []pact{inc(0), inc(1)},
 			Conc: []pact{{Op: "connect", R: 0}, {Op: "sync", R: 0}, {Op: "sync", R: 1}}, AtEnd: end}
@@ -906,6 +913,8 @@ func init() {
 				mk("list-3t-remote-b3", 3, map[string]interface{}{"type": "list", "threads": 3, "remote": true}),
 				mk("counter-2t-stmt-b3", 3, map[string]interface{}{"type": "counter", "threads": 2, "stmt": true}),
 				mk("list-2t-remote-stmt-b2", 2, map[string]interface{}{"type": "list", "threads": 2, "remote": true, "stmt": true}),
+				mk("doc-3t-remote-b3", 3, map[string]interface{}{"type": "doc", "threads": 3, "remote": true}),
+				mk("doc-2t-stmt-b2", 2, map[string]interface{}{"type": "doc", "threads": 2, "stmt": true}),
 				mkd("list-positional-3t-remote-b3", 3, map[string]interface{}{"type": "list", "threads": 3, "remote": true}),
 				mkd("docarr-positional-3t-remote-b3", 3, map[string]interface{}{"type": "docarr", "threads": 3, "remote": true}),
 				mks("sync-counter-2u-2s-b3", 3, map[string]interface{}{"type": "counter", "users": 2, "syncs": 2, "pending": 1}),
@@ -925,6 +934,8 @@ func init() {
 				mk("list-2t-stmt-b4", 4, map[string]interface{}{"type": "list", "threads": 2, "stmt": true}),
 				mk("counter-3t-remote-pack-stmt-b2", 2, map[string]interface{}{"type": "counter", "threads": 3, "remote": true, "packer": true, "stmt": true}),
 				mk("list-3t-remote-stmt-b2", 2, map[string]interface{}{"type": "list", "threads": 3, "remote": true, "stmt": true}),
+				mk("doc-3t-remote-pack-b3", 3, map[string]interface{}{"type": "doc", "threads": 3, "remote": true, "packer": true}),
+				mk("doc-2t-stmt-b3", 3, map[string]interface{}{"type": "doc", "threads": 2, "stmt": true}),
 				mkd("list-positional-3t-remote-pack-b4", 4, map[string]interface{}{"type": "list", "threads": 3, "remote": true, "packer": true}),
 				mkd("docarr-positional-3t-remote-pack-b4", 4, map[string]interface{}{"type": "docarr", "threads": 3, "remote": true, "packer": true}),
 				mkd("list-positional-3t-remote-stmt-b2", 2, map[string]interface{}{"type": "list", "threads": 3, "remote": true, "stmt": true}),
